@@ -229,14 +229,18 @@ def w_pairs(case):
 
 
 # ------------------------------------------------------------------------------- image level
-def disc_surface(ntracks, spt):
+def disc_surface(ntracks, spt, cat_total=None):
     """catalogue in sectors 0/1 (valid, total = ntracks*spt), distinct data elsewhere"""
     from lib import disc
     img = bytearray()
     for t in range(ntracks):
         for r in range(spt):
             img += sector_data(t, r, salt=17)
-    s0, s1 = disc.catalogue(b'C06', 1, 0, ntracks * spt, [disc.Entry(b'F', b'$', False, 0, 0, 256, 2)])
+    # files: one per sector from sector 2 on (as many as the catalogue holds), so that a read through the catalogue
+    # (logical block address -> cylinder/record) is checked sector by sector as well as dump-sector
+    n = cat_total or ntracks * spt
+    ents = [disc.Entry(b'S%03d' % k, b'$', False, 0, 0, 256, k) for k in range(min(n - 1, 32), 1, -1)]
+    s0, s1 = disc.catalogue(b'C06', 1, 0, n, ents)
     img[0:256] = s0
     img[256:512] = s1
     return bytes(img)
@@ -245,9 +249,9 @@ def disc_surface(ntracks, spt):
 DAMAGES = ['data-crc', 'id-crc', 'data-mark', 'deleted-bad-crc']
 
 
-def build_damaged(container, ntracks, spt, damaged, how):
+def build_damaged(container, ntracks, spt, damaged, how, cat_total=None):
     """damaged: set of (t, r) sectors; how: damage kind.  Returns file bytes."""
-    surf = disc_surface(ntracks, spt)
+    surf = disc_surface(ntracks, spt, cat_total)
     enc = 'FM' if container == 'hfe-fm' else 'MFM'
     tracks = []
     for t in range(ntracks):
@@ -283,7 +287,7 @@ def w_image(case):
     try:
         container, nt, spt, how = case['container'], case['ntracks'], case['spt'], case['how']
         damaged = set(tuple(x) for x in case['damaged'])
-        data, surf = build_damaged(container, nt, spt, damaged, how)
+        data, surf = build_damaged(container, nt, spt, damaged, how, case.get('cat_total'))
         d = run.fresh_dir('c06')
         name = 'img.hfe' if container.startswith('hfe') else 'img.mfm'
         dfsrun.write(d, name, data)
@@ -320,6 +324,27 @@ def w_image(case):
                     res['viol'].append(('%s:wrong-sector-returned:%s:%s' % (sig, pos, allt),
                                         '%s with %s on sectors %s: dump-sector 0 %d %d returned the data of %s' % (
                                             name, how, sorted(damaged), t, r, where[:1] or 'no recorded sector')))
+        # the same sectors through the catalogue
+        for k in range(2, min(case.get('cat_total') or nt * spt, 33)):
+            t, r = divmod(k, spt)
+            rr = dfsrun.dfs('plain', ['--file', name, 'type', '--binary', 'S%03d' % k], d)
+            res['n'] += 1
+            if rr.sig or rr.timeout:
+                res['viol'].append((sig + ':crash', rr.status()))
+            elif rr.exit != 0:
+                bump(res, 'file-read-failed')
+            else:
+                want = surf[k * 256:(k + 1) * 256]
+                if rr.out == want and (t, r) not in damaged:
+                    bump(res, 'file-read-correct')
+                elif rr.out == want:
+                    if how in ('data-crc', 'deleted-bad-crc'):
+                        res['viol'].append((sig + ':damaged-sector-returned:file-read', 'sector %d' % k))
+                else:
+                    where = [j for j in range(nt * spt) if surf[j * 256:(j + 1) * 256] == rr.out]
+                    bump(res, 'file-read-wrong')
+                    res['viol'].append((sig + ':wrong-sector-returned:file-read', '%s with %s on %s: type of the file in sector %d (track %d sector %d) '
+                                        'returned the data of sector %s' % (name, how, sorted(damaged), k, t, r, where[:1] or '?')))
         res['nt'].append((container, nt, spt, how, tuple(sorted(damaged))))
         if res['viol']:
             res['case'] = case
@@ -400,6 +425,12 @@ def fam_image(tier):
                     subsets.append([(0, r), (1, r)])
             for sub in subsets:
                 yield {'w': 'image', 'container': container, 'ntracks': 2, 'spt': 5, 'how': how, 'damaged': sub}
+        # a file system smaller than the disc (catalogue total 12 of 20 sectors): an image that loses sectors still has
+        # room for the catalogue's total, so a mis-derived geometry shows as wrong data instead of a rejected image
+        for how in DAMAGES:
+            for t in range(4):
+                for r in range(5):
+                    yield {'w': 'image', 'container': container, 'ntracks': 4, 'spt': 5, 'how': how, 'damaged': [(t, r)], 'cat_total': 12}
         # full-size tracks: 2 tracks of 10 (FM) / 18 (MFM) sectors, singles and same-record-on-all-tracks
         spt = 10 if container == 'hfe-fm' else 18
         for how in DAMAGES:
